@@ -83,15 +83,21 @@ def check(case, rec):
             if not numpy.array_equal(nm, tm):
                 raise Violation("%s.%s ignore=%s: NaN format and (values, validity) format disagree on the "
                                 "missing cells" % (kind, agg, ignore), sig="%s.%s formats disagree on missing" % (kind, agg))
-            if not numpy.array_equal(nv[~nm], tv[~nm]):
+            def close(a, b):
+                # bit-identical in the exact (dyadic) mode; in the rough-float mode the formats may differ by
+                # rounding residues of the marginal differencing (e.g. 2.8e-17 vs the 0 a plain-value run snaps
+                # to): the property's own tolerance (1e-9 x grand total) applies, as in C03
+                return bool(numpy.all(numpy.abs(a - b) <= tol))
+
+            if not close(nv[~nm], tv[~nm]):
                 raise Violation("%s.%s ignore=%s: values differ between NaN and pair formats" % (kind, agg, ignore),
                                 sig="%s.%s formats disagree on values" % (kind, agg))
             if "plain" in results:
                 pv, _ = results["plain"]
-                if not numpy.array_equal(pv[~nm], nv[~nm]):
+                if not close(pv[~nm], nv[~nm]):
                     raise Violation("%s.%s ignore=%s: plain-format values differ from the NaN format at valid cells"
                                     % (kind, agg, ignore), sig="%s.%s plain format values" % (kind, agg))
-                if not numpy.all(pv[nm] == 0):
+                if not numpy.all(numpy.abs(pv[nm]) <= tol):
                     raise Violation("%s.%s ignore=%s: plain format holds %r at a missing cell, expected the "
                                     "replacement value 0" % (kind, agg, ignore, float(pv[nm][0])),
                                     sig="%s.%s plain format at missing cells" % (kind, agg))
